@@ -2,23 +2,23 @@
 # try_seed.sh <Cnn> [dir-with-patch.diff (default /verif/seeded/<Cnn>)] : apply a seeded change in a scratch worktree,
 # run its demo on both trees and the property's check against the changed tree.
 ID="$1"; SRC="${2:-/verif/seeded/$ID}"
-D=$(mktemp -d /tmp/wt-seed-$ID-XXXX)
+D=$(mktemp -d /tmp/wt-seed-$ID-XXXX); U=$(basename "$D")
 git -C /repo worktree add --detach "$D" HEAD -q || exit 2
 if ! git -C "$D" apply "$SRC/patch.diff"; then echo "PATCH DOES NOT APPLY"; git -C /repo worktree remove --force "$D"; exit 3; fi
 DEMO=$(ls "$SRC"/demo*.py 2>/dev/null | head -1)
 if [ -n "$DEMO" ]; then
   for T in /repo "$D"; do
-    if grep -q "def test_" "$DEMO"; then (cd "$T" && REPO_UNDER_TEST="$T" PYTHONPATH="$T" timeout 600 /venv/bin/python -m pytest -q -p no:cacheprovider -n 0 -p no:randomly "$DEMO" > /tmp/demo-$ID.log 2>&1); rc=$?;
-    else (cd "$T" && REPO_UNDER_TEST="$T" PYTHONPATH="$T" timeout 600 /venv/bin/python "$DEMO" > /tmp/demo-$ID.log 2>&1); rc=$?; fi
-    echo "demo on $T: rc=$rc $(tail -1 /tmp/demo-$ID.log | cut -c1-120)"
+    if grep -q "def test_" "$DEMO"; then (cd "$T" && REPO_UNDER_TEST="$T" PYTHONPATH="$T" timeout 600 /venv/bin/python -m pytest -q -p no:cacheprovider -n 0 -p no:randomly "$DEMO" > /tmp/demo-$U.log 2>&1); rc=$?;
+    else (cd "$T" && REPO_UNDER_TEST="$T" PYTHONPATH="$T" timeout 600 /venv/bin/python "$DEMO" > /tmp/demo-$U.log 2>&1); rc=$?; fi
+    echo "demo on $T: rc=$rc $(tail -1 /tmp/demo-$U.log | cut -c1-120)"
   done
 fi
 cd /verif
-VERIF_REPO="$D" timeout 3000 ./check "$ID" --tier quick > /tmp/seedcheck-$ID.log 2>&1; rc=$?
+VERIF_REPO="$D" timeout 3000 ./check "$ID" --tier quick > /tmp/seedcheck-$U.log 2>&1; rc=$?
 echo "check $ID on seeded tree: rc=$rc"
-grep "^VIOLATION\|^KNOWN" /tmp/seedcheck-$ID.log | head -8
-for r in $(grep -o "replay=[^ ]*" /tmp/seedcheck-$ID.log | cut -d= -f2 | head -6); do python3 -c "
+grep -a "^VIOLATION\|^KNOWN" /tmp/seedcheck-$U.log | head -8
+for r in $(grep -a -o "replay=[^ ]*" /tmp/seedcheck-$U.log | cut -d= -f2 | head -6); do python3 -c "
 import json,sys; d=json.load(open('$r')); print('   key=',d.get('key'),'|',str(d.get('what'))[:140], '| broken:',[o['name'] for o in d.get('broken_obligations',[])][:4])"; done
 key=$(python3 -c "import hashlib;print(hashlib.sha1('$D'.encode()).hexdigest()[:10])")
 rm -rf "/verif/_build/$key"
-git -C /repo worktree remove --force "$D"; rm -rf "$D"
+git -C /repo worktree remove --force "$D"; rm -rf "$D" /tmp/demo-$U.log /tmp/seedcheck-$U.log
